@@ -1,4 +1,116 @@
-(* PC19.v placeholder while the proofs are being built *)
-From SV Require Import DominionCvr.
-Theorem C19_placeholder : True. Proof. exact I. Qed.
-Print Assumptions C19_placeholder.
+(* PC19.v — property C19: the Dominion JSON import reflects counted marks, adjudication and grouping faithfully.
+   Model: DominionCvr.v (Dominion.read_cvrs / read_cvrs_directory on the parsed export as an ordered structure).
+   Vocabulary (DominionCvr_proofs.v, top): counted, ranks_of (ranks of a candidate's counted marks), is_min_rank,
+   dict_equiv (Python dict equality), last_with (a later entry for a contest id replaces an earlier one),
+   session_perm / cvr_equiv (exports equal up to the order of marks / records equal as Python compares them). *)
+From Coq Require Import ZArith List Bool Permutation.
+From SV Require Import DominionCvr DominionCvr_proofs.
+Import ListNotations.
+Open Scope Z_scope.
+
+(* Exactly one record per session of the included counting groups, in file order (files in sorted-name order), with
+   identifier tab-batch-record (record taken from the image mask when obfuscated, "X" = None when the mask has no
+   number), tally pool tab-batch, pooled exactly when the counting group is in pool_groups. *)
+Theorem C19_one_per_session : forall (o : opts) (files : list (list session)),
+  read_cvrs_directory o files = flat_map (fun ss => map (mk_record o) (filter (fun s => negb (skipped o s)) ss)) files /\
+  (forall s, negb (skipped o s) = true <-> (o_include o = [] \/ In (s_group s) (o_include o))) /\
+  (forall s, r_id (mk_record o s) = (s_tab s, s_batch s, match s_rec s with Some n => Some n | None => s_mask s end) /\
+             r_tally_pool (mk_record o s) = (s_tab s, s_batch s) /\
+             (r_pool (mk_record o s) = true <-> In (s_group s) (o_pool o)) /\
+             r_votes (mk_record o s) = session_votes o s).
+Proof. exact one_per_session. Qed.
+Print Assumptions C19_one_per_session.
+
+Example C19_one_per_session_nonvacuous :
+  let s g r m := mkSession g 1 5 r m [(KOriginal, Flat [mkContest 1 [mkMark 6 1 true]])] in
+  map (fun r => (r_id r, r_pool r))
+      (read_cvrs_directory (mkOpts true true [2; 3] [2]) [[s 1 (Some 7) None; s 2 None (Some 119)]; [s 3 None None]])
+  = [((1, 5, Some 119), true); ((1, 5, None), false)].
+Proof. reflexivity. Qed.
+
+(* The value recorded for a candidate in a contest: absent when the candidate has no counted mark; otherwise the smallest
+   positive rank among that candidate's counted marks (0 when none of them is positive).  Ranks assumed non-negative. *)
+Theorem C19_min_positive_rank : forall (enforce : bool) (ms : list mark) (k : Z),
+  (forall m, In m ms -> 0 <= m_rank m) ->
+  let rs := ranks_of enforce k ms in
+  (rs = [] -> dget k (contest_votes enforce ms) = None) /\
+  (rs <> [] -> exists v, dget k (contest_votes enforce ms) = Some v /\
+     ((exists r, In r rs /\ 0 < r) -> 0 < v /\ In v rs /\ forall r, In r rs -> 0 < r -> v <= r) /\
+     ((forall r, In r rs -> r = 0) -> v = 0)).
+Proof. exact min_positive_rank. Qed.
+Print Assumptions C19_min_positive_rank.
+
+Example C19_min_positive_rank_nonvacuous :
+  let ms := [mkMark 5 3 true; mkMark 6 0 true; mkMark 5 1 false; mkMark 5 2 true; mkMark 5 0 true; mkMark 6 4 true] in
+  (forall m, In m ms -> 0 <= m_rank m) /\ ranks_of true 5 ms = [3; 2; 0] /\
+  contest_votes true ms = [(5, 2); (6, 4)] /\ contest_votes false ms = [(5, 1); (6, 4)].
+Proof. repeat split; try reflexivity. intros m H. simpl in H. intuition (subst; simpl; discriminate). Qed.
+
+(* Permuting the marks of a contest leaves every candidate's recorded value (and the set of candidates) unchanged ... *)
+Theorem C19_mark_order_invariant : forall (enforce : bool) (ms ms' : list mark),
+  Permutation ms ms' -> forall k, dget k (contest_votes enforce ms) = dget k (contest_votes enforce ms').
+Proof. exact mark_order_invariant. Qed.
+Print Assumptions C19_mark_order_invariant.
+
+(* ... and therefore the whole import: exports that differ only in the order of marks inside contests give the same
+   records (same ids, pools, flags, order; votes equal as dicts), for all four options. *)
+Theorem C19_mark_order_invariant_import : forall (o : opts) (files files' : list (list session)),
+  Forall2 (Forall2 session_perm) files files' ->
+  Forall2 cvr_equiv (read_cvrs_directory o files) (read_cvrs_directory o files').
+Proof. exact import_mark_order_invariant. Qed.
+Print Assumptions C19_mark_order_invariant_import.
+
+Example C19_mark_order_invariant_nonvacuous :
+  let m1 := mkMark 5 3 true in let m2 := mkMark 5 1 true in let m3 := mkMark 6 2 false in
+  let s ms := mkSession 1 1 1 (Some 1) None [(KOriginal, Cards [[mkContest 1 ms]])] in
+  Permutation [m1; m2; m3] [m3; m2; m1] /\ Forall2 (Forall2 session_perm) [[s [m1; m2; m3]]] [[s [m3; m2; m1]]] /\
+  contest_votes true [m1; m2; m3] = [(5, 1)].
+Proof.
+  simpl. split; [|split; [|reflexivity]].
+  - eapply Permutation_trans; [apply perm_swap|]. eapply Permutation_trans; [apply perm_skip, perm_swap|].
+    eapply Permutation_trans; [apply perm_swap|]. apply Permutation_refl.
+  - repeat constructor; simpl; auto.
+    eapply Permutation_trans; [apply perm_swap|]. eapply Permutation_trans; [apply perm_skip, perm_swap|].
+    eapply Permutation_trans; [apply perm_swap|]. apply Permutation_refl.
+Qed.
+
+(* Uncounted marks (IsVote false) are ignored exactly when rules are enforced: with enforce_rules they might as well be
+   absent; without, every mark counts as if it were a vote. *)
+Theorem C19_uncounted_ignored : forall (ms : list mark),
+  contest_votes true ms = contest_votes true (filter m_isvote ms) /\
+  contest_votes false ms = contest_votes true (map force_vote ms).
+Proof. exact uncounted_ignored. Qed.
+Print Assumptions C19_uncounted_ignored.
+
+Example C19_uncounted_ignored_nonvacuous :
+  let ms := [mkMark 5 1 false; mkMark 5 3 true; mkMark 7 2 false] in
+  contest_votes true ms = [(5, 3)] /\ contest_votes false ms = [(5, 1); (7, 2)].
+Proof. split; reflexivity. Qed.
+
+(* Adjudicated data replace original data for the contests they cover when current data are requested — wherever the
+   two keys stand in the file (the hypotheses only say that the keys are present); and the session's votes do not
+   depend on the key order at all. *)
+Theorem C19_modified_wins : forall (o : opts) (s : session) (bo bm : body),
+  dfind KOriginal (s_data s) = Some bo -> dfind KModified (s_data s) = Some bm ->
+  (forall cid,
+    dget cid (session_votes o s) =
+    if o_current o then
+      match last_with cid (selector bm) with
+      | Some con => Some (contest_votes (o_enforce o) (c_marks con))
+      | None => value_of (o_enforce o) (last_with cid (selector bo))
+      end
+    else value_of (o_enforce o) (last_with cid (selector bo))) /\
+  (forall d1 d2, dfind KOriginal d1 = dfind KOriginal d2 -> dfind KModified d1 = dfind KModified d2 ->
+                 session_votes o (with_data s d1) = session_votes o (with_data s d2)).
+Proof. exact modified_wins_full. Qed.
+Print Assumptions C19_modified_wins.
+
+Example C19_modified_wins_nonvacuous :
+  let bo := Flat [mkContest 1 [mkMark 6 1 true]; mkContest 2 [mkMark 8 1 true]] in
+  let bm := Cards [[mkContest 1 []]] in
+  let s d := mkSession 2 1 5 None (Some 119) d in
+  let o := mkOpts true true [] [] in
+  session_votes o (s [(KModified, bm); (KOther, Flat []); (KOriginal, bo)]) = [(1, []); (2, [(8, 1)])] /\
+  session_votes o (s [(KOriginal, bo); (KModified, bm)]) = [(1, []); (2, [(8, 1)])] /\
+  session_votes (mkOpts false true [] []) (s [(KModified, bm); (KOriginal, bo)]) = [(1, [(6, 1)]); (2, [(8, 1)])].
+Proof. repeat split; reflexivity. Qed.
